@@ -255,3 +255,25 @@ pub fn type_tag(v: &CelValue) -> &'static str {
         _ => "other",
     }
 }
+
+/// Indices into `all_values()` of a curated subset for the quick tier: every type with its boundary members
+/// (so that e.g. a multi-byte string meets the offsets 1, 2, 3 and an int meets MIN / -1 / 0).
+pub fn quick_indices() -> Vec<usize> {
+    let all = all_values();
+    let want = |v: &CelValue| -> bool {
+        match v {
+            CelValue::Int(i) => [0, 1, -1, 2, 3, i64::MIN, i64::MAX].contains(i),
+            CelValue::UInt(u) => [0, 2, u64::MAX].contains(u),
+            CelValue::Float(f) => f.is_nan() || f.is_infinite() || [0.0, -1.0, 1.5, 1e300].contains(f),
+            CelValue::Bool(_) | CelValue::Null | CelValue::Type(_) | CelValue::Err(_) => true,
+            CelValue::String(s) => ["", "a", "ab", "é", "日本", "a b"].contains(&s.as_str()),
+            CelValue::Bytes(b) => b.len() <= 1 && (b.len() == 0 || b.as_slice()[0] == 0xff || b.as_slice()[0] == 0x61),
+            CelValue::List(l) => l.len() <= 1 || matches!(l[0], CelValue::String(_)),
+            CelValue::Map(m) => m.len() <= 1 && !m.values().any(|v| matches!(v, CelValue::UInt(_))),
+            CelValue::TimeStamp(t) => (t.timestamp() == 0 && t.timestamp_subsec_nanos() == 0) || *t == chrono::DateTime::<Utc>::MIN_UTC || *t == chrono::DateTime::<Utc>::MAX_UTC,
+            CelValue::Duration(d) => d.is_zero() || *d == TimeDelta::MAX || *d == TimeDelta::MIN || *d == TimeDelta::milliseconds(-1500),
+            _ => false,
+        }
+    };
+    (0..all.len()).filter(|i| want(&all[*i])).collect()
+}
